@@ -261,7 +261,13 @@ pub fn eval(expr: Node) -> Result<Number, Box<dyn error::Error>> {
                 return Err("The Lambert W function is not defined for {}.".into());
             }
             let iterations = (4).max((sub_expr.log10() / 3.0).ceil() as i32).min(128);
-            let mut w: f64 = 0.0;
+            // start from the asymptotic estimate ln x - ln ln x once it is defined (x > e): from 0 the few
+            // Halley steps below do not reach the root for larger x
+            let mut w: f64 = if sub_expr > std::f64::consts::E {
+                sub_expr.ln() - sub_expr.ln().ln()
+            } else {
+                0.0
+            };
             for _ in 0..iterations {
                 let exp_w = w.exp();
                 w -= (w * exp_w - sub_expr)
